@@ -356,6 +356,16 @@ def method(ex, frame, e, base, meth, hint):
             return VNone()
         if meth == 'copy':
             return VSet(base.arr, base.elem)
+        if meth in ('isdisjoint', 'issubset', 'issuperset') and len(A) == 1:
+            o = ev(A[0], hint=SetS(base.elem))
+            if not isinstance(o, VSet):
+                o = _set_of_seq(ex, ex.as_seq(o, frame))
+            x = z3.Const(E.fresh_name('sx'), base.elem.z3())
+            if meth == 'isdisjoint':
+                return VBool(z3.ForAll([x], z3.Not(z3.And(base.arr[x], o.arr[x]))))
+            if meth == 'issubset':
+                return VBool(z3.ForAll([x], z3.Implies(base.arr[x], o.arr[x])))
+            return VBool(z3.ForAll([x], z3.Implies(o.arr[x], base.arr[x])))
         return NOPE
     if isinstance(base, VList):
         if meth == 'append':
